@@ -58,7 +58,9 @@ Init3 == \/ \E o \in Ops3, x \in {JNum(2), JBool(TRUE), JNum(8)}, l \in L2w : Em
 CONSTANT Depth
 \* string constants that must round-trip exactly, and malformed rule shapes that must be rejected
 Strings == {"a\"b", "back\\slash", "C:\\temp\\new\\report.txt", "tab\there", "nl\nline", "'single'", "x)(", "semi;colon", "", " ",
-            "\\d+\\.\\d+$", "ends with backslash\\", "/* c */", "// c", "a\\\\b", "DOMAIN\\user", "q\"\\n", "}{", "then", "when true"}
+            "\\d+\\.\\d+$", "ends with backslash\\", "/* c */", "// c", "a\\\\b", "DOMAIN\\user", "q\"\\n", "}{", "then", "when true",
+            "10% discount", "50%-off", "100%", "%d items", "%%", "%s", "%!d(MISSING)", "a%20b",
+            "4", "false", "true", "2", "3", "6"}
 BadShapes == {"unknown-operator", "arity-0", "arity-1-eq", "arity-1-plus", "arity-1-lt", "set-arity-1", "set-arity-3", "call-arity-0", "missing-name",
               "missing-when", "missing-then", "when-number", "empty-input", "blank-input", "not-json", "two-keys", "obj-not-string",
               "const-array", "unknown-nested", "arity-1-nested", "not-arity-0", "and-arity-0", "plus-arity-0-nested", "not-arity-0-in-then",
